@@ -163,9 +163,10 @@ impl<'a> Parser<'a> {
 
         'outer: while let Some((lexer, path)) = self.lexers.last_mut() {
             // a $INCLUDE entry on a last line without a line end is completed like any other
-            while let Some(t) = lexer.next_token()?.or_else(|| {
-                matches!(state, State::Include(Some(_))).then_some(Token::EOL)
-            }) {
+            while let Some(t) = lexer
+                .next_token()?
+                .or_else(|| matches!(state, State::Include(Some(_))).then_some(Token::EOL))
+            {
                 state = match state {
                     State::StartLine => {
                         // current_name is not reset on the next line b/c it might be needed from the previous
